@@ -16,11 +16,15 @@ import (
 // EX — shape of the text assembled by the example builder.
 
 func init() {
+	register(&Rule{ID: "EX-shape-deep", Min: 20, Thorough: true, Run: func(c *load.Ctx, r *report.RuleResult) { runEXShapeN(c, r, 5) },
+		Doc: "EX-shape for containers with up to 5 children"})
 	register(&Rule{ID: "EX-shape", Min: 20, Run: runEXShape,
 		Doc: "example assembly: for containers with 0..3 children, each child either emitted or omitted (recursion cut-off), the sequence of writes made by the object and array builders is well-formed — opening bracket, the emitted elements in order exactly once, exactly one separator between two emitted elements and none dangling, closing bracket; object keys are written from their source token or through an encoder, never from the decoded key text"})
 }
 
-func runEXShape(c *load.Ctx, r *report.RuleResult) {
+func runEXShape(c *load.Ctx, r *report.RuleResult) { runEXShapeN(c, r, 3) }
+
+func runEXShapeN(c *load.Ctx, r *report.RuleResult, maxChildren int) {
 	const rel = "notations/jschema"
 	e := newAbsNodeEnv(c)
 	build := c.Func(rel, "exampleBuilder.Build")
@@ -144,7 +148,7 @@ func runEXShape(c *load.Ctx, r *report.RuleResult) {
 			r.Unk("anchor|schema."+kind.typ, "", "not found")
 			continue
 		}
-		for n := 0; n <= 3; n++ {
+		for n := 0; n <= maxChildren; n++ {
 			n := n
 			// the container's children and keys
 			if f := c.Func(pkgSchema, kind.typ+".Children"); f != nil {
